@@ -11,6 +11,7 @@
 #include <map>
 #include <memory>
 #include <strings.h>
+#include <unistd.h>
 
 extern "C" {
 #include "confuse.h"
@@ -1008,6 +1009,13 @@ RunResult execute(const json &plan, const ExecOpts &opts)
 	ex.res.allocs_u2 = W.total_u2;
 	ex.res.reads = W.total_reads;
 	ex.res.hash = fnv64(ex.res.log());
+	if (const char *tr = ::getenv("VERIF_TRACE")) {
+		FILE *tf = ::fopen((std::string(tr) + "." + std::to_string(getpid())).c_str(), "a");
+		if (tf) {
+			fprintf(tf, "=== run scrub=%d only=%d hash=%016lx\n%s", opts.scrub, opts.only_client, (unsigned long)ex.res.hash, ex.res.log().c_str());
+			::fclose(tf);
+		}
+	}
 
 	// ---- restart the process image
 	for (auto &kv : ex.ptrs)
